@@ -542,6 +542,9 @@ structure Book.Ok (B : Book) : Prop where
   out_fob : ∀ (s : Sys) (f : List (Bytes × FobEntry)) (sc : List Bytes), B.out { s with fob := f, scheduled := sc } = B.out s
   iss_fob : ∀ (s : Sys) (f : List (Bytes × FobEntry)) (sc : List Bytes), B.issued { s with fob := f, scheduled := sc } = B.issued s
   res_fob : ∀ (s : Sys) (f : List (Bytes × FobEntry)) (sc : List Bytes), B.resets { s with fob := f, scheduled := sc } = B.resets s
+  out_ack : ∀ (s : Sys) (f : List (Bytes × FobEntry)) (a : List Bytes), B.out { s with fob := f, ackFrames := a } = B.out s
+  iss_ack : ∀ (s : Sys) (f : List (Bytes × FobEntry)) (a : List Bytes), B.issued { s with fob := f, ackFrames := a } = B.issued s
+  res_ack : ∀ (s : Sys) (f : List (Bytes × FobEntry)) (a : List Bytes), B.resets { s with fob := f, ackFrames := a } = B.resets s
   out_db : ∀ (s : Sys) (m : OutRow), B.out { s with db := (s.db.addOutbox m).getD s.db } = B.out s
   iss_db : ∀ (s : Sys) (m : OutRow), B.issued { s with db := (s.db.addOutbox m).getD s.db } = B.issued s
   res_db : ∀ (s : Sys) (m : OutRow), B.resets { s with db := (s.db.addOutbox m).getD s.db } = B.resets s
@@ -556,6 +559,7 @@ structure Book.Ok (B : Book) : Prop where
 theorem dnBook_ok : dnBook.Ok :=
   { out_thr := fun _ _ => rfl, iss_thr := fun _ _ => rfl, res_thr := fun _ _ => rfl,
     out_fob := fun _ _ _ => rfl, iss_fob := fun _ _ _ => rfl, res_fob := fun _ _ _ => rfl,
+    out_ack := fun _ _ _ => rfl, iss_ack := fun _ _ _ => rfl, res_ack := fun _ _ _ => rfl,
     out_db := fun _ _ => rfl, iss_db := fun _ _ => rfl, res_db := fun _ _ => rfl,
     done := rfl, notify := fun _ _ => rfl, sendAt := fun _ => rfl, sendDone := fun _ => rfl,
     enc0 := fun p c b => held_enc0 p c b, up0 := fun _ _ => rfl, join0 := fun _ _ => rfl }
@@ -563,6 +567,7 @@ theorem dnBook_ok : dnBook.Ok :=
 theorem upBook_ok : upBook.Ok :=
   { out_thr := fun _ _ => rfl, iss_thr := fun _ _ => rfl, res_thr := fun _ _ => rfl,
     out_fob := fun _ _ _ => rfl, iss_fob := fun _ _ _ => rfl, res_fob := fun _ _ _ => rfl,
+    out_ack := fun _ _ _ => rfl, iss_ack := fun _ _ _ => rfl, res_ack := fun _ _ _ => rfl,
     out_db := fun _ _ => rfl, iss_db := fun _ _ => rfl, res_db := fun _ _ => rfl,
     done := rfl, notify := fun _ _ => rfl, sendAt := fun _ => rfl, sendDone := fun _ => rfl,
     enc0 := fun _ _ _ => rfl, up0 := fun s h => by simp [upBook, heldUp, h], join0 := fun _ _ => rfl }
@@ -570,6 +575,7 @@ theorem upBook_ok : upBook.Ok :=
 theorem jnBook_ok (cfg : Config) : (jnBook cfg).Ok :=
   { out_thr := fun _ _ => rfl, iss_thr := fun _ _ => rfl, res_thr := fun _ _ => rfl,
     out_fob := fun _ _ _ => rfl, iss_fob := fun _ _ _ => rfl, res_fob := fun _ _ _ => rfl,
+    out_ack := fun _ _ _ => rfl, iss_ack := fun _ _ _ => rfl, res_ack := fun _ _ _ => rfl,
     out_db := fun _ _ => rfl, iss_db := fun s m => nonces_addOutbox s.db m, res_db := fun _ _ => rfl,
     done := rfl, notify := fun _ _ => rfl, sendAt := fun _ => rfl, sendDone := fun _ => rfl,
     enc0 := fun _ _ _ => rfl, up0 := fun _ _ => rfl, join0 := fun s h => by simp [jnBook, heldJn, h] }
@@ -604,26 +610,25 @@ theorem k_step (B : Book) (ok : B.Ok) (E D : Spec.Rfc4493.BlockFn) (cfg : Config
     | uplink s => exact key _ (hU s) (threads_stepUplink E sys s fault)
     | join s => exact key _ (hJ s) (threads_stepJoin E cfg sys s fault)
     | notify p c =>
-      refine key (if sys.scheduled.contains c.device.eui then (sys, [.done])
-        else ({ sys with scheduled := c.device.eui :: sys.scheduled }, [.sendAt c])) ?_ ?_
-      · split
+      refine key (stepNotify sys c) ?_ ?_
+      · unfold stepNotify
+        split
         · exact hq _ _ rfl rfl rfl (ok.notify p c) (by simp [Book.heldAll, ok.done])
         · exact hq _ _ (ok.out_fob sys sys.fob _) (ok.iss_fob sys sys.fob _) (ok.res_fob sys sys.fob _) (ok.notify p c)
             (by simp [Book.heldAll, ok.sendAt])
-      · split <;> rfl
+      · unfold stepNotify; split <;> rfl
     | sendAt c =>
-      refine key (match (fobTake sys.fob c.device c.gw.dataRate).2 with
-        | some p => ({ sys with fob := (fobTake sys.fob c.device c.gw.dataRate).1 }, [.sendDone c.device.eui, .encoder 0 p c []])
-        | none => ({ sys with fob := (fobTake sys.fob c.device c.gw.dataRate).1 }, [.sendDone c.device.eui])) ?_ ?_
-      · split
-        · exact hq _ _ (ok.out_fob sys _ sys.scheduled) (ok.iss_fob sys _ sys.scheduled) (ok.res_fob sys _ sys.scheduled) (ok.sendAt c)
+      refine key (stepSendAt sys c) ?_ ?_
+      · unfold stepSendAt
+        split
+        · exact hq _ _ (ok.out_ack sys _ _) (ok.iss_ack sys _ _) (ok.res_ack sys _ _) (ok.sendAt c)
             (by simp [Book.heldAll, ok.sendDone, ok.enc0])
         · exact hq _ _ (ok.out_fob sys _ sys.scheduled) (ok.iss_fob sys _ sys.scheduled) (ok.res_fob sys _ sys.scheduled) (ok.sendAt c)
             (by simp [Book.heldAll, ok.sendDone])
-      · split <;> rfl
+      · unfold stepSendAt; split <;> rfl
     | sendDone e =>
-      exact key ({ sys with scheduled := sys.scheduled.filter (· != e) }, [.done])
-        (hq _ _ (ok.out_fob sys sys.fob _) (ok.iss_fob sys sys.fob _) (ok.res_fob sys sys.fob _) (ok.sendDone e) (by simp [Book.heldAll, ok.done])) rfl
+      exact key (stepSendDone sys e)
+        (hq _ _ (ok.out_fob sys sys.fob _) (ok.iss_fob sys sys.fob _) (ok.res_fob sys sys.fob _) (ok.sendDone e) (by simp [stepSendDone, Book.heldAll, ok.done])) rfl
     | encoder pc p c b => exact key _ (hE pc p c b) (threads_stepEncoder E D sys pc p c b fault)
     | done => exact key (sys, [.done]) (hq _ _ rfl rfl rfl ok.done (by simp [Book.heldAll, ok.done])) rfl
 
